@@ -232,7 +232,9 @@ def run(rep, repo, tier):
                         'IEEE-754 binary32/binary64 arithmetic with round-to-nearest (interval analysis of float values)',
                         'a float -> integer conversion whose operand is out of range is undefined; later clauses are '
                         'evaluated for defined conversions and the conversion site itself is reported (R-FCONV)']
-    mod = compile_ir(repo + '/igris/util/numconvert.c', repo)
+    from irlib import keep_all_but_new_helpers
+    # file-local helpers introduced by refactoring are folded into their callers (local_pow is anchored by the rules)
+    mod = compile_ir(repo + '/igris/util/numconvert.c', repo, inline=keep_all_but_new_helpers(('local_pow',)))
     rep.units.append('igris/util/numconvert.c')
     ftoa_check(rep, mod)
     forward_rule(rep, 'R-FORWARD', need(mod, 'igris_f64toa'), 'igris_f64toa', 'igris_f32toa',
